@@ -80,7 +80,7 @@ def stepLine (st : JState) (line : String) : JState × String :=
             ((if lhs.startsWith "query " then st else { st with specDead := true }), none)
           else if WorldJudge.outOfContract lhs && !(lhs.startsWith "spawn_cb_at") && !(r.trimAscii.toString.startsWith "nosuch") then
             ({ st with specDead := true }, some "a bundle naming a component type twice must be rejected")
-          else if r.trimAscii.toString == "panic" && !(lhs.startsWith "spawn_cb_at") then
+          else if r.trimAscii.toString == "panic" && !(lhs.startsWith "spawn_cb_at") && !WorldJudge.aliasingQueryLine lhs then
             ({ st with specDead := true }, some "operation panicked inside hecs")
           else match WorldJudge.specLine st.specs lhs r with
             | .ok ss => ({ st with specs := ss }, none)
